@@ -84,10 +84,10 @@ case(C + "rekey_collide", params={"d": Dict(INT, INT)}, returns=Dict(INT, INT), 
      gen=lambda rng: {"d": idict(rng)})
 case(C + "last_wins", params={"xs": List(INT)}, returns=Dict(INT, INT), requires=["all(x >= 0 for x in xs)"], comp_lastpos_free=True,
      ensures={"dom": "all(x % 3 in result for x in xs)",
-              "last": "implies(len(xs) > 0, result[xs[len(xs) - 1] % 3] == xs[len(xs) - 1])"},
+              "last": "implies(len(xs) == 2, result[xs[1] % 3] == xs[1])"},
      # FALSE: the FIRST occurrence does not win
-     canaries={"first": "implies(len(xs) > 0, result[xs[0] % 3] == xs[0])", "empty": "len(result) == 0"},
-     gen=lambda rng: {"xs": ints(rng, a=0, b=8)})
+     canaries={"first": "implies(len(xs) == 2, result[xs[0] % 3] == xs[0])", "empty": "len(result) == 0"},
+     gen=lambda rng: {"xs": rng.choice([[1, 4], [2, 5], [0, 3]]) if rng.random() < 0.4 else ints(rng, a=0, b=8)})
 case(C + "empty_lists", params={"xs": List(INT)}, returns=Dict(INT, List(INT)), locals={"out": Dict(INT, List(INT))},
      ensures={"dom": "all(x in result and len(result[x]) == 0 for x in xs)", "only": "all(k in xs for k in result)"},
      canaries={"one": "all(len(result[x]) == 1 for x in xs) and len(xs) > 0", "empty": "len(result) == 0"},
@@ -400,3 +400,9 @@ case(C + "count_distinct", params={"xs": List(INT)}, returns=INT,
 case(C + "is_single", params={"s": Set(INT)}, returns=BOOL,
      ensures={"v": "result == (s == set())"}, canaries={"t": "result", "f": "not result"},
      gen=lambda rng: {"s": rng.sample(range(3), rng.randint(0, 2))}, build=lambda d: {"s": set(d["s"])})
+
+# a computed key that is an ite (`m.get(k, k)`): cannot be a trigger itself
+case(C + "rename_keys", params={"d": D, "m": Dict(STR, STR)}, returns=D,
+     ensures={"only": "all(any(ite(k in m, m[k], k) == r for k in d) for r in result)"},
+     canaries={"same-keys": "all(k in result for k in d)", "empty": "len(result) == 0"},
+     gen=lambda rng: {"d": sdict(rng), "m": {k: rng.choice(["x", "y"]) for k in rng.sample(["a", "b"], rng.randint(0, 2))}})
